@@ -770,6 +770,8 @@ func runDoc(seed uint64, corpus string) vlib.Case {
 
 func tableCases(w *vlib.Writer) {
 	in := newInterner()
+	var entries []string
+	desc := map[string]interface{}{}
 	nInit := 0
 	for p := pr.KnownProp(1); p < pr.NbProperties; p++ {
 		name, _ := coqStr(p.String())
@@ -780,10 +782,10 @@ func tableCases(w *vlib.Writer) {
 			nInit++
 			init = in.term(p, iv)
 		}
-		w.Add(vlib.Case{Kind: "tab-prop", Coq: fmt.Sprintf("CTabProp %d %s %s %s %s (%s)", p, name,
-			vlib.Bool(pr.Inherited.Has(p)), vlib.Bool(pr.InitialNotComputed.Has(p)), comp, init),
-			Desc: map[string]interface{}{"prop": p.String(), "inherited": pr.Inherited.Has(p), "initial_not_computed": pr.InitialNotComputed.Has(p),
-				"computer": tree.VerifC04ComputerName(p), "initial": fmt.Sprintf("%#v", iv)}, Nontrivial: true})
+		entries = append(entries, fmt.Sprintf("TProp %d %s %s %s %s (%s)", p, name,
+			vlib.Bool(pr.Inherited.Has(p)), vlib.Bool(pr.InitialNotComputed.Has(p)), comp, init))
+		desc[p.String()] = fmt.Sprintf("inherited=%v initial_not_computed=%v computer=%q initial=%#v",
+			pr.Inherited.Has(p), pr.InitialNotComputed.Has(p), tree.VerifC04ComputerName(p), iv)
 	}
 	nComp := 0
 	for p := pr.KnownProp(1); p < pr.NbProperties; p++ {
@@ -792,28 +794,32 @@ func tableCases(w *vlib.Writer) {
 		}
 	}
 	for u := pr.Unit(0); u <= pr.Fr+1; u++ {
-		w.Add(vlib.Case{Kind: "tab-unit", Coq: fmt.Sprintf("CTabUnit %d %s", u, vlib.Q32(float32(pr.LengthsToPixels[u]))),
-			Desc: map[string]interface{}{"unit": int(u), "px": float32(pr.LengthsToPixels[u])}, Nontrivial: true})
+		entries = append(entries, fmt.Sprintf("TUnit %d %s", u, vlib.Q32(float32(pr.LengthsToPixels[u]))))
 	}
+	desc["LengthsToPixels"] = fmt.Sprintf("%v", pr.LengthsToPixels)
 	for i, k := range pr.FontSizeKeywordsOrder {
 		s, _ := coqStr(k)
-		w.Add(vlib.Case{Kind: "tab-fsk", Coq: fmt.Sprintf("CTabFsk %d %s %s", i, s, vlib.Q32(float32(pr.FontSizeKeywords[k]))),
-			Desc: map[string]interface{}{"keyword": k, "px": float32(pr.FontSizeKeywords[k])}, Nontrivial: true})
+		entries = append(entries, fmt.Sprintf("TFsk %d %s %s", i, s, vlib.Q32(float32(pr.FontSizeKeywords[k]))))
 	}
+	desc["FontSizeKeywords"] = fmt.Sprintf("%v", pr.FontSizeKeywords)
 	bw := tree.VerifC04BorderWidthKeywords()
-	for k, v := range bw {
+	var bwKeys []string
+	for k := range bw {
+		bwKeys = append(bwKeys, k)
+	}
+	sort.Strings(bwKeys)
+	for _, k := range bwKeys {
 		s, _ := coqStr(k)
-		w.Add(vlib.Case{Kind: "tab-bw", Coq: fmt.Sprintf("CTabBw %s %s", s, vlib.Q32(float32(v))),
-			Desc: map[string]interface{}{"keyword": k, "px": float32(v)}, Nontrivial: true, Key: "bw" + k})
+		entries = append(entries, fmt.Sprintf("TBw %s %s", s, vlib.Q32(float32(bw[k]))))
 	}
 	bolder, lighter := tree.VerifC04FontWeightRelative()
 	for wgt := 0; wgt <= 1000; wgt += 50 {
-		w.Add(vlib.Case{Kind: "tab-fw", Coq: fmt.Sprintf("CTabFw true %d %d", wgt, bolder[wgt]), Desc: map[string]interface{}{"bolder": wgt, "to": bolder[wgt]}, Nontrivial: true})
-		w.Add(vlib.Case{Kind: "tab-fw", Coq: fmt.Sprintf("CTabFw false %d %d", wgt, lighter[wgt]), Desc: map[string]interface{}{"lighter": wgt, "to": lighter[wgt]}, Nontrivial: true})
+		entries = append(entries, fmt.Sprintf("TFw true %d %d", wgt, bolder[wgt]), fmt.Sprintf("TFw false %d %d", wgt, lighter[wgt]))
 	}
-	w.Add(vlib.Case{Kind: "tab-sizes", Coq: fmt.Sprintf("CTabSizes %d %d %d %d %d %d %d %d %d %d", pr.NbProperties, len(pr.Inherited),
-		len(pr.InitialNotComputed), nComp, nInit, len(pr.LengthsToPixels), len(pr.FontSizeKeywords), len(bw), len(bolder), len(lighter)),
-		Desc: map[string]interface{}{"nb_properties": int(pr.NbProperties)}, Nontrivial: true})
+	desc["fontWeightRelative"] = fmt.Sprintf("bolder=%v lighter=%v", bolder, lighter)
+	entries = append(entries, fmt.Sprintf("TSizes %d %d %d %d %d %d %d %d %d %d", pr.NbProperties, len(pr.Inherited),
+		len(pr.InitialNotComputed), nComp, nInit, len(pr.LengthsToPixels), len(pr.FontSizeKeywords), len(bw), len(bolder), len(lighter)))
+	w.Add(vlib.Case{Kind: "tables", Coq: "CTables " + vlib.List(entries), Desc: desc, Nontrivial: true, Key: "tables"})
 }
 
 // ---------------------------------------------------------------- main
